@@ -299,7 +299,7 @@ Theorem image_rec_spec fuel : ∀ s u v um vm q fa cache r s',
   match r with
   | Ok (x, cache') => valid s' x ∧ icache_ok s' um vm q fa cache' ∧
         ∀ a, D s' x a = true ↔ qsemF fa q (body s vm u v) (oassign um a)
-  | Err e => e = ENeedsReordering ∧ is_Some (last_len s)
+  | Err e => benign s e
   end.
 Proof.
   induction fuel as [|f IH];
@@ -376,7 +376,7 @@ Proof.
   apply IH in Ep' as (HI1&He1&Hf1&Hp); [|done|done|done|done|done|done|done|lia].
   destruct rp as [[p c1]|e]; cycle 1.
   { rewrite (bind_err _ _ _ _ _ Ep). intros [= <- <-].
-    destruct Hp as [-> ?]. by split_and!. }
+    by split_and!. }
   rewrite (bind_ok _ _ _ _ _ Ep). destruct Hp as (Hpv&Hc1&HpD).
   (* second recursive call, in the extended manager *)
   assert (Hnv1 : nvars s1 = nvars s) by (by apply extends_nvars).
@@ -392,8 +392,7 @@ Proof.
   { rewrite Hnv1, !(lvl_extends s s1) by done. lia. }
   destruct rq as [[q' c2]|e]; cycle 1.
   { rewrite (bind_err _ _ _ _ _ Eq). intros [= <- <-].
-    destruct Hq as [-> Hll]. split_and!; [done|by etrans|by etrans|done|].
-    by apply (frame_last s s1). }
+    split_and!; [done|by etrans|by etrans|]. apply (benign_frame s s1); [done|apply Hq]. }
   rewrite (bind_ok _ _ _ _ _ Eq). destruct Hq as (Hqv&Hc2&HqD).
   assert (He02 : extends s s2) by (by etrans).
   assert (Hf02 : frame s s2) by (by etrans).
@@ -414,7 +413,7 @@ Proof.
             match rw with
             | Ok x => valid s3 x ∧
                       ∀ a, D s3 x a = true ↔ qsemF fa q (body s vm u v) (oassign um a)
-            | Err e => e = ENeedsReordering ∧ is_Some (last_len s2)
+            | Err e => benign s2 e
             end).
   { subst mk. destruct (decide (z ∈ q)) as [Hzq|Hzq]; [destruct fa|].
     - (* forall: p /\ q *)
@@ -442,7 +441,7 @@ Proof.
          |by rewrite (lvl_term s2 HI2)|by rewrite (lvl_term s2 HI2)].
       destruct rg as [g|e]; cycle 1.
       { rewrite (bind_err _ _ _ _ _ Eg) in Ew. injection Ew as <- <-.
-        destruct Hg as (->&Hll&_). by split_and!. }
+        split_and!; [done..|]. exact (proj1 Hg). }
       rewrite (bind_ok _ _ _ _ _ Eg) in Ew.
       destruct Hg as (Hgv&_&HgD0).
       assert (HgD : ∀ a, D s2' g a = a (rd um z)).
@@ -453,7 +452,7 @@ Proof.
          |by apply (no_reorder_frame s2 s2')].
       split; [done|split; [by etrans|split; [by etrans|]]].
       destruct rw as [x|e]; cycle 1.
-      { destruct Hr as [-> Hll]. split; [done|]. by apply (frame_last s2 s2'). }
+      { exact (benign_frame _ _ _ Hf2' Hr). }
       destruct Hr as (Hxv&_&HxD). split; [done|].
       intros a. rewrite HxD, HgD.
       rewrite (D_extends s2 s2' q'), (D_extends s2 s2' p) by done.
@@ -463,8 +462,7 @@ Proof.
   clearbody mk. destruct Hm as (HI3&He3&Hf3&Hr).
   destruct rw as [x|e]; cycle 1.
   { rewrite (bind_err _ _ _ _ _ Ew). intros [= <- <-].
-    destruct Hr as (->&Hll). split_and!; [done|by etrans|by etrans|done|].
-    by apply (frame_last s s2). }
+    split_and!; [done|by etrans|by etrans|]. apply (benign_frame s s2); [done|apply Hr]. }
   rewrite (bind_ok _ _ _ _ _ Ew). destruct Hr as (Hxv&HxD).
   cbn [ret]. intros [= <- <-].
   assert (He03 : extends s s3) by (by etrans).
@@ -489,7 +487,7 @@ Corollary image_rec_plain fuel s u v q fa r s' :
   match r with
   | Ok (x, _) => valid s' x ∧
         ∀ a, D s' x a = true ↔ qsemF fa q (conj_body s u v) a
-  | Err e => e = ENeedsReordering ∧ is_Some (last_len s)
+  | Err e => benign s e
   end.
 Proof.
   intros HI Hu Hv Hnr Hfuel Hrun.
@@ -509,7 +507,7 @@ Corollary preimage_rec_spec fuel s u v m q fa cache r s' :
   match r with
   | Ok (x, cache') => valid s' x ∧ icache_ok s' None (Some m) q fa cache' ∧
         ∀ a, D s' x a = true ↔ qsemF fa q (pre_body s m u v) a
-  | Err e => e = ENeedsReordering ∧ is_Some (last_len s)
+  | Err e => benign s e
   end.
 Proof.
   intros HI Hu Hv Hnr Hvm Hc Hfuel Hrun.
@@ -528,7 +526,7 @@ Corollary image_rec_umap_spec fuel s u v m q fa cache r s' :
   match r with
   | Ok (x, cache') => valid s' x ∧ icache_ok s' (Some m) None q fa cache' ∧
         ∀ a, D s' x a = true ↔ qsemF fa q (conj_body s u v) (post_assign m a)
-  | Err e => e = ENeedsReordering ∧ is_Some (last_len s)
+  | Err e => benign s e
   end.
 Proof.
   intros HI Hu Hv Hnr Hum Hc Hfuel Hrun.
@@ -663,7 +661,7 @@ Proof. intros H. apply elem_of_list_to_map_2 in H. by rewrite elem_of_reverse in
 (** with the hypothesis the recursion needs: reading the target through the
     renaming is strictly monotone on the levels of the target *)
 Theorem preimage_spec_mono s trans target byname rn qbyname qvars fa q rnl m r s' :
-  Inv s → valid s trans → valid s target → last_len s = None →
+  Inv s → valid s trans → valid s target → last_len s = None → max_nodes s = None →
   fst (map_to_level_set qbyname qvars s) = Ok q →
   fst (map_rename byname rn s) = Ok rnl → m = list_to_map (reverse rnl) →
   no_overlap m = true →
@@ -673,7 +671,7 @@ Theorem preimage_spec_mono s trans target byname rn qbyname qvars fa q rnl m r s
   ∃ x, r = Ok x ∧ Inv s' ∧ extends s s' ∧ valid s' x ∧
     ∀ a, D s' x a = true ↔ qsemF fa q (pre_body s m trans target) a.
 Proof.
-  intros HI Ht Hg Hoff Hq Hrn Hm Hno Hkeys Hvm Hrun. unfold preimage in Hrun.
+  intros HI Ht Hg Hoff Hmx Hq Hrn Hm Hno Hkeys Hvm Hrun. unfold preimage in Hrun.
   assert (Hq' : map_to_level_set qbyname qvars s = (Ok q, s))
     by (by rewrite map_to_level_set_state, Hq).
   rewrite (bind_ok _ _ _ _ _ Hq') in Hrun.
@@ -700,7 +698,7 @@ Proof.
   apply preimage_rec_spec in Er' as (HI2&He2&Hf2&Hr);
     [|done|done|done|by right|done|apply icache_ok_empty|lia].
   destruct rr as [[x c]|e]; cycle 1.
-  { destruct Hr as [_ [l Hl]]. congruence. }
+  { by destruct (benign_never s e Hoff Hmx). }
   rewrite (bind_ok _ _ _ _ _ Er) in Hrun. cbn [ret fst] in Hrun.
   injection Hrun as <- <-. destruct Hr as (Hxv&_&HxD).
   exists x. by split_and!.
@@ -708,7 +706,7 @@ Qed.
 
 (** under the documented preconditions *)
 Theorem preimage_spec s trans target byname rn qbyname qvars fa q rnl m r s' :
-  Inv s → valid s trans → valid s target → last_len s = None →
+  Inv s → valid s trans → valid s target → last_len s = None → max_nodes s = None →
   fst (map_to_level_set qbyname qvars s) = Ok q →
   fst (map_rename byname rn s) = Ok rnl → m = list_to_map (reverse rnl) →
   no_overlap m = true →
@@ -722,7 +720,7 @@ Theorem preimage_spec s trans target byname rn qbyname qvars fa q rnl m r s' :
       if fa then ∀ b, agree_off q a b → pre_body s m trans target b = true
       else ∃ b, agree_off q a b ∧ pre_body s m trans target b = true.
 Proof.
-  intros HI Ht Hg Hoff Hq Hrn Hm Hno Hd Hinj Hadj Hval Hrun.
+  intros HI Ht Hg Hoff Hmx Hq Hrn Hm Hno Hd Hinj Hadj Hval Hrun.
   apply (preimage_spec_mono s trans target byname rn qbyname qvars fa q rnl m r s');
     try done.
   - intros k k' Hk. by apply Hd in Hk as [? _].
@@ -787,14 +785,19 @@ Proof.
   split; [done|split; [by eexists|]]. by exists st_, ss.
 Qed.
 
-(** the meaning of the result of the recursion started by [image] *)
-Lemma image_core s trans source q fa m r s' :
+(** the meaning of the result of the recursion started by [image], whatever
+    the outcome (a bound on the number of nodes allowed) *)
+Lemma image_core_any s trans source q fa m r s' :
   Inv s → valid s trans → valid s source → last_len s = None →
   (∀ k k', m !! k = Some k' → k' < nvars s) →
   bind (image_rec (S (S (2 * nvars s))) trans source (Some m) None q fa ∅)
        (fun r => ret (fst r)) s = (r, s') →
-  ∃ x, r = Ok x ∧ Inv s' ∧ extends s s' ∧ valid s' x ∧
-    ∀ a, D s' x a = true ↔ qsemF fa q (conj_body s trans source) (post_assign m a).
+  Inv s' ∧ extends s s' ∧ frame s s' ∧
+  match r with
+  | Ok x => valid s' x ∧
+      ∀ a, D s' x a = true ↔ qsemF fa q (conj_body s trans source) (post_assign m a)
+  | Err e => benign s e
+  end.
 Proof.
   intros HI Ht Hg Hoff Hvals Hrun.
   destruct (image_rec (S (S (2 * nvars s))) trans source (Some m) None q fa ∅ s)
@@ -805,16 +808,32 @@ Proof.
   { intros l Hl. unfold rd. destruct (m !! l) as [k'|] eqn:E; simpl; [|done].
     by apply Hvals in E. }
   destruct rr as [[x c]|e]; cycle 1.
-  { destruct Hr as [_ [l Hl]]. congruence. }
+  { rewrite (bind_err _ _ _ _ _ Er) in Hrun. injection Hrun as <- <-. by split_and!. }
   rewrite (bind_ok _ _ _ _ _ Er) in Hrun. cbn [ret fst] in Hrun.
   injection Hrun as <- <-. destruct Hr as (Hxv&_&HxD).
-  exists x. by split_and!.
+  by split_and!.
+Qed.
+
+(** the same when no bound on the number of nodes is set: it succeeds *)
+Lemma image_core s trans source q fa m r s' :
+  Inv s → valid s trans → valid s source → last_len s = None → max_nodes s = None →
+  (∀ k k', m !! k = Some k' → k' < nvars s) →
+  bind (image_rec (S (S (2 * nvars s))) trans source (Some m) None q fa ∅)
+       (fun r => ret (fst r)) s = (r, s') →
+  ∃ x, r = Ok x ∧ Inv s' ∧ extends s s' ∧ valid s' x ∧
+    ∀ a, D s' x a = true ↔ qsemF fa q (conj_body s trans source) (post_assign m a).
+Proof.
+  intros HI Ht Hg Hoff Hmx Hvals Hrun.
+  destruct (image_core_any s trans source q fa m r s' HI Ht Hg Hoff Hvals Hrun)
+    as (HI2&He2&_&Hr).
+  destruct r as [x|e]; [|by destruct (benign_never s e Hoff Hmx)].
+  destruct Hr as [Hxv HxD]. exists x. by split_and!.
 Qed.
 
 (** [image], when its checks pass: no adjacency is required, and the
     renaming may be any map to declared levels *)
 Theorem image_spec s trans source byname rn qbyname qvars fa q rnl m r s' :
-  Inv s → valid s trans → valid s source → last_len s = None →
+  Inv s → valid s trans → valid s source → last_len s = None → max_nodes s = None →
   fst (map_to_level_set qbyname qvars s) = Ok q →
   fst (map_rename byname rn s) = Ok rnl → m = list_to_map (reverse rnl) →
   (∀ k k', m !! k = Some k' → k' < nvars s) →
@@ -825,7 +844,7 @@ Theorem image_spec s trans source byname rn qbyname qvars fa q rnl m r s' :
       if fa then ∀ b, agree_off q (post_assign m a) b → conj_body s trans source b = true
       else ∃ b, agree_off q (post_assign m a) b ∧ conj_body s trans source b = true.
 Proof.
-  intros HI Ht Hg Hoff Hq Hrn -> Hvals Hpre Hrun.
+  intros HI Ht Hg Hoff Hmx Hq Hrn -> Hvals Hpre Hrun.
   destruct (image_run _ _ _ _ _ _ _ _ _ _ _ _ Hq Hrn Hrun) as [[_ Hrec]|[Hn _]]; [|done].
   by apply (image_core s trans source q fa _ r s').
 Qed.
@@ -846,8 +865,8 @@ Proof.
   intros HI Ht Hg Hoff Hq Hrn -> Hvals Hrun.
   destruct (image_run _ _ _ _ _ _ _ _ _ _ _ _ Hq Hrn Hrun) as [[Hpre Hrec]|[_ (e&[=]&_)]].
   split; [done|].
-  destruct (image_core s trans source q fa _ _ s' HI Ht Hg Hoff Hvals Hrec)
-    as (x'&[= <-]&?&?&?&?).
+  destruct (image_core_any s trans source q fa _ _ s' HI Ht Hg Hoff Hvals Hrec)
+    as (?&?&_&?&?).
   by split_and!.
 Qed.
 
@@ -944,7 +963,7 @@ Qed.
     every pair made of declared levels, every rename target quantified or
     absent from both operands.  No adjacency. *)
 Theorem image_spec_doc s trans source byname rn qbyname qvars fa q rnl m r s' :
-  Inv s → valid s trans → valid s source → last_len s = None →
+  Inv s → valid s trans → valid s source → last_len s = None → max_nodes s = None →
   fst (map_to_level_set qbyname qvars s) = Ok q →
   fst (map_rename byname rn s) = Ok rnl → m = list_to_map (reverse rnl) →
   no_overlap m = true →
@@ -956,7 +975,7 @@ Theorem image_spec_doc s trans source byname rn qbyname qvars fa q rnl m r s' :
       if fa then ∀ b, agree_off q (post_assign m a) b → conj_body s trans source b = true
       else ∃ b, agree_off q (post_assign m a) b ∧ conj_body s trans source b = true.
 Proof.
-  intros HI Ht Hg Hoff Hq Hrn Hm Hno Hd Hval Hrun.
+  intros HI Ht Hg Hoff Hmx Hq Hrn Hm Hno Hd Hval Hrun.
   apply (image_spec s trans source byname rn qbyname qvars fa q rnl m r s'); try done.
   - intros k k' Hk. rewrite Hm in Hk. apply list_to_map_reverse_elem in Hk.
     by apply Hd in Hk as [_ ?].
